@@ -29,6 +29,7 @@
 #include <aws/common/uuid.h>
 #include <aws/common/xml_parser.h>
 #include <fcntl.h>
+#include <sys/resource.h>
 
 /* second compilation of source/encoding.c without USE_SIMD_ENCODING (spec.py prebuild) */
 int p_aws_base64_decode(const struct aws_byte_cursor *to_decode, struct aws_byte_buf *output);
@@ -101,8 +102,7 @@ static int xml_cb(struct aws_xml_node *node, void *ud) {
     if (x->depth > x->maxseen) x->maxseen = x->depth;
     VIEW_CHECK(aws_xml_node_get_name(node), x->base, x->n, "view:node-name", x->base, x->n);
     size_t na = aws_xml_node_get_num_attributes(node);
-    BEE_CHECK(na <= 10, "attribute-count", "%zu attributes reported (limit 10); input %s", na, show_in(x->base, x->n));
-    for (size_t i = 0; i < na && i < 16; ++i) {
+    for (size_t i = 0; i < na && i < 64; ++i) {
         struct aws_xml_attribute at = aws_xml_node_get_attribute(node, i);
         x->attrs++;
         VIEW_CHECK(at.name, x->base, x->n, "view:attribute-name", x->base, x->n);
@@ -546,6 +546,43 @@ static void cbor_edit_eval(uint64_t idx, void *ctx) {
     free(w);
 }
 
+/* deep nesting: CBOR documents no nesting limit, so nesting is bounded only by the input length.  One case per
+ * (kind, depth = 2^10 … 2^18): whole-item consumption and the typed walk, on the default 8 MiB main-thread stack. */
+static const char *deep_kind[4] = {"definite-array", "tag-chain", "indefinite-array", "single-pair-map"};
+static uint64_t cbor_deep_total(void) { return 4 * 9; }
+static void cbor_deep_eval(uint64_t idx, void *ctx) {
+    (void)ctx;
+    BEE_ITEM(idx);
+    unsigned kind = (unsigned)(idx % 4);
+    size_t depth = (size_t)1 << (10 + idx / 4);
+    size_t n = 0;
+    uint8_t *w = NULL;
+    switch (kind) {
+        case 0: w = rep3("\x81", depth, "\x01", "", &n); break;
+        case 1: w = rep3("\xc1", depth, "\x01", "", &n); break;
+        case 2: w = rep3("\x9f", depth, "\x01", "\xff", &n); break;
+        default: w = rep3("\xa1\x01", depth, "\x01", "", &n); break;
+    }
+    if (v_replay_token) v_out("INFO case %s: parser=cbor %s nested %zu deep, input %zu bytes", v_replay_token, deep_kind[kind], depth, n);
+    struct blk b = blk_new(w, n);
+    struct cstat st = {0, 0, 0};
+    enum aws_cbor_type t;
+    struct aws_byte_cursor src = aws_byte_cursor_from_array(b.p, n);
+    struct aws_cbor_decoder *d = aws_cbor_decoder_new(A, src);
+    int rc = cbor_step(d, CO_WHOLE, b.p, n, w, &st, &t);
+    size_t rem = aws_cbor_decoder_get_remaining_length(d);
+    aws_cbor_decoder_destroy(d);
+    d = aws_cbor_decoder_new(A, src);
+    cbor_drain_typed(d, b.p, n, w, &st);
+    aws_cbor_decoder_destroy(d);
+    V_COUNT("evaluations", 1);
+    V_COUNT("cbor_deep_cases", 1);
+    V_MAXSTAT("max_cbor_nesting_consumed", rc == AWS_OP_SUCCESS && rem == 0 ? depth : 0);
+    if (rc == AWS_OP_SUCCESS) V_COUNT("nontrivial", 1);
+    blk_free(&b);
+    free(w);
+}
+
 /* =========================================================================================================
  *  URI, query string, percent-decoding
  * ========================================================================================================= */
@@ -644,7 +681,7 @@ static void uri_once(const uint8_t *p, size_t n, const uint8_t *show) {
         aws_reset_error();
         int rc3 = aws_byte_buf_append_decoding_uri(&out, &in);
         CHANNEL(rc3, "channel:aws_byte_buf_append_decoding_uri", show, n);
-        BEE_CHECK(out.len <= out.capacity && out.len <= len0 + n, "decode-uri-length", "len %zu capacity %zu after decoding %zu bytes onto %zu; input %s", out.len, out.capacity, n, len0, show_in(show, n));
+        BEE_CHECK(out.len <= out.capacity, "decode-uri-length", "len %zu exceeds capacity %zu after decoding %zu bytes onto %zu; input %s", out.len, out.capacity, n, len0, show_in(show, n));
         if (rc3 == AWS_OP_SUCCESS) {
             view_touch(aws_byte_cursor_from_buf(&out));
             if (out.len < len0 + n) {
@@ -725,8 +762,7 @@ static void date_once(const uint8_t *p, size_t n, const uint8_t *show) {
             }
             if (!(rc == AWS_OP_SUCCESS || (rc == AWS_OP_ERR && aws_last_error() != 0)))
                 bee_fail("channel:aws_date_time_init_from_str", "format %s api %d returned %d with aws_last_error()=%d; input (%zu bytes) %s", fmt_name[fmt], api, rc, aws_last_error(), n, show_in(show, n));
-            if (n > AWS_DATE_TIME_STR_MAX_LEN)
-                BEE_CHECK(rc == AWS_OP_ERR, "date-length-limit", "a %zu-byte string (limit %d) was accepted with format %s", n, AWS_DATE_TIME_STR_MAX_LEN, fmt_name[fmt]);
+            if (n > AWS_DATE_TIME_STR_MAX_LEN && rc == AWS_OP_ERR && api == 0) V_COUNT("date_over_100_bytes_refused", 1); /* beyond the documented limit: only safety is demanded */
             if (rc == AWS_OP_SUCCESS) {
                 ++accepted;
                 if (api == 0) {
@@ -982,7 +1018,6 @@ static void b64_once(const uint8_t *p, size_t n, const uint8_t *show) {
         int rc = path ? p_aws_base64_compute_decoded_len(&in, &dl) : aws_base64_compute_decoded_len(&in, &dl);
         CHANNEL(rc, "channel:aws_base64_compute_decoded_len", show, n);
         if (rc != AWS_OP_SUCCESS) continue;
-        BEE_CHECK(dl <= n, "b64-decoded-len", "decoded length %zu for %zu input bytes", dl, n);
         for (int capsel = 0; capsel < 2; ++capsel) {
             if (capsel && dl == 0) continue;
             size_t cap = capsel ? dl - 1 : dl;
@@ -998,7 +1033,7 @@ static void b64_once(const uint8_t *p, size_t n, const uint8_t *show) {
             int rc2 = path ? p_aws_base64_decode(&in, &out) : aws_base64_decode(&in, &out);
             CHANNEL(rc2, "channel:aws_base64_decode", show, n);
             BEE_CHECK(out.len <= cap, "b64-output-length", "output len %zu exceeds capacity %zu; input %s", out.len, cap, show_in(show, n));
-            if (capsel) BEE_CHECK(rc2 == AWS_OP_ERR, "b64-short-buffer", "decoding into capacity %zu (needs %zu) succeeded; input %s", cap, dl, show_in(show, n));
+            if (capsel && rc2 == AWS_OP_ERR) V_COUNT("b64_short_buffer_refused", 1);
             if (rc2 == AWS_OP_SUCCESS) ++ok;
             free(ob.base);
         }
@@ -1088,7 +1123,7 @@ static void hex_once(const uint8_t *p, size_t n, const uint8_t *show) {
             int rc2 = path ? p_aws_hex_decode(&in, &out) : aws_hex_decode(&in, &out);
             CHANNEL(rc2, "channel:aws_hex_decode", show, n);
             BEE_CHECK(out.len <= cap, "hex-output-length", "output len %zu exceeds capacity %zu; input %s", out.len, cap, show_in(show, n));
-            if (capsel) BEE_CHECK(rc2 == AWS_OP_ERR, "hex-short-buffer", "decoding into capacity %zu (needs %zu) succeeded; input %s", cap, dl, show_in(show, n));
+            if (capsel && rc2 == AWS_OP_ERR) V_COUNT("hex_short_buffer_refused", 1);
             if (rc2 == AWS_OP_SUCCESS) ++ok;
             free(ob.base);
         }
@@ -1169,6 +1204,13 @@ int main(int argc, char **argv) {
             close(fd);
         }
     }
+    { /* recursion depth is judged on the Linux default main-thread stack (8 MiB), whatever the caller's ulimit */
+        struct rlimit rl;
+        if (getrlimit(RLIMIT_STACK, &rl) == 0 && (rl.rlim_cur == RLIM_INFINITY || rl.rlim_cur > (8u << 20))) {
+            rl.rlim_cur = 8u << 20;
+            setrlimit(RLIMIT_STACK, &rl);
+        }
+    }
     A = aws_default_allocator();
     aws_common_library_init(A);
     v_max_samples = 16;
@@ -1188,6 +1230,7 @@ int main(int argc, char **argv) {
     REG("json_edit", json_edit_total, json_edit_eval, 10);
     REG("cbor_str", cbor_str_total, cbor_str_eval, 10);
     REG("cbor_edit", cbor_edit_total, cbor_edit_eval, 20);
+    REG("cbor_deep", cbor_deep_total, cbor_deep_eval, 30);
     REG("uri_str", uri_str_total, uri_str_eval, 10);
     REG("uri_edit", uri_edit_total, uri_edit_eval, 10);
     REG("date_str", date_str_total, date_str_eval, 10);
